@@ -2,6 +2,7 @@
 From Coq Require Import List NArith Arith.
 From MDW Require Import Bytes Maps GenTypes Generated ThreadList ThreadListProofs.
 From MDW Require MemWriter Writer Hoare MiniDump Image ImagePayload.
+From MDW Require MemWriter Writer Hoare MiniDump Image ImageThreads.
 Import ListNotations.
 Local Open Scope N_scope.
 
@@ -51,3 +52,18 @@ Theorem C07_memory_list_payload : forall blocks s d s',
   d = (MiniDump.T_MEMLIST, {| MemWriter.l_rva := MemWriter.u32 (Hoare.blen s); MemWriter.l_size := (4 + N.of_nat (Image.MEMDESC_SZ * length blocks))%N |}).
 Proof. exact ImagePayload.memory_list_payload. Qed.
 Print Assumptions C07_memory_list_payload.
+
+(* The memory list in the FINAL image of every dump: the third directory entry; it holds, in this order, what the thread list
+   handed on (per thread its stack, then - crash thread only - the window around the crash instruction pointer: [thread_says])
+   followed by one descriptor per application region; each descriptor designates exactly the bytes given for it at its own
+   address; nothing else is listed. *)
+Theorem C07_whole_image_memory_list : forall c dirs lg s',
+  Image.image c MiniDump.empty_wst = MemWriter.Ok ((dirs, lg), s') -> Hoare.small (Hoare.blen s') ->
+  exists rs blocks cc appd off,
+    ImageThreads.run_rel (ImageThreads.thread_says c 248) (Writer.w_buf s') (Image.ic_threads c) ([], MiniDump.CNone) rs (blocks, cc) /\
+    Forall2 (ImageThreads.region_says 248 (Writer.w_buf s')) (Image.ic_app c) appd /\
+    slice (Writer.w_buf s') off (4 + Image.MEMDESC_SZ * length (blocks ++ appd)) =
+      le 4 (N.of_nat (length (blocks ++ appd))) ++ concat (map MiniDump.enc_memdesc (blocks ++ appd)) /\
+    nth_error dirs 2 = Some (MiniDump.T_MEMLIST, {| MemWriter.l_rva := N.of_nat off; MemWriter.l_size := (4 + N.of_nat (Image.MEMDESC_SZ * length (blocks ++ appd)))%N |}).
+Proof. exact ImageThreads.image_memory_list. Qed.
+Print Assumptions C07_whole_image_memory_list.
